@@ -47,7 +47,20 @@ def run(ctx, progs):
     ctx.rule("NONE1", "None only over edges establishing N==0 / size==0 / index>=size; Some only under index<size / size>0")
     ctx.rule("TWIN", "&/&mut accessor pairs: equal event skeletons modulo mutability [twin]")
     ctx.rule("KIND1", "index-kind inference: physical positions and logical indices/lengths are never compared, and never stand in for each other")
+    ctx.rule("ITERAGG1", "every Iter/IterMut is built from (first, second) of one view or (right, left) of one iterator")
+    if "default" in progs and "unstable" in progs:
+        # the positional views under the `unstable` feature: everything above is decided on each configuration's own MIR; that the nightly arms of the helpers
+        # are the reviewed substitution of a std API for the hand-written code (same operands, same end of the slice) is C18's
+        # DELEG1, evaluated here too because the statement quantifies over configurations
+        from . import c18 as _c18
+
+        ctx.rule("DELEG1", "each unstable arm is the reviewed substitution with pass-through operands")
+        _c18.deleg1(ctx, progs["default"], progs["unstable"], "default|unstable", _c18.cfgdiff2(ctx, progs["default"], progs["unstable"], "default|unstable") if False else ())
+
     for cfg, prog in progs.items():
+        from . import c08 as _c08i
+
+        _c08i.iteragg1(ctx, prog, cfg)
         deriv1(ctx, prog, cfg)
         none1(ctx, prog, cfg)
         shapes.viewcmp1(ctx, prog, cfg)
